@@ -169,7 +169,9 @@ def run(ctx):
         wrong = mutate_one_gate(spec)
         for k in (2, 3, 4, 5):
             # ---------------------------------------------------------- limit_fanin
-            ck, e = call(tx.limit_fanin, build(spec), k)
+            carg = build(spec)
+            ck, e = call(tx.limit_fanin, carg, k)
+            ctx.unchanged("limit_fanin", carg, spec)
             if e is not None:
                 ctx.side("limit_fanin-raises", False, f"limit_fanin:raises:{type(e).__name__}", f"limit_fanin(k={k}) raised {e!r}", det)
             else:
@@ -182,7 +184,9 @@ def run(ctx):
                 if wrong and k == 2 and ok:
                     twin_differs(ctx, "twin-limit_fanin", Net.from_spec(wrong), B, allpairs)
             # --------------------------------------------------------- limit_fanout
-            ck, e = call(tx.limit_fanout, build(spec), k)
+            carg = build(spec)
+            ck, e = call(tx.limit_fanout, carg, k)
+            ctx.unchanged("limit_fanout", carg, spec)
             if e is not None:
                 ctx.side("limit_fanout-raises", False, f"limit_fanout:raises:{type(e).__name__}", f"limit_fanout(k={k}) raised {e!r}", det)
             else:
@@ -195,7 +199,9 @@ def run(ctx):
         # ------------------------------------------------------- insert_registers
         if not A.bbs and "clk" not in A.types:
             for stages in (1, 2, 3):
-                cr, e = call(tx.insert_registers, build(spec), stages)
+                carg = build(spec)
+                cr, e = call(tx.insert_registers, carg, stages)
+                ctx.unchanged("insert_registers", carg, spec)
                 if e is not None:
                     if isinstance(e, ValueError) and "range() arg 3 must not be zero" in str(e):
                         ctx.rejected("insert_registers: no stage boundary")
